@@ -14,14 +14,18 @@ CONSTANTS Streams,        \* set of token sequences; token = [b |-> bits, o |-> 
           Direct,         \* the Reader peeks the caller's own bufio.Reader (Reset with *bufio.Reader)
           \* deviations of the pinned code (TRUE = as read)
           DevPeekWholeBuffer, DevErrorBeforeData,
+          MaxResets,            \* Reset(src) calls per behaviour
+          DevResetKeepsWindow,  \* Reset keeps the window cursors: undelivered output of the old stream survives
           DevPeekAtStreamEnd   \* at the end of the stream, with all output delivered, peek the source again before io.EOF
 
 VARIABLES S, released, after,            \* environment: stream, gate, behaviour after the gate
           srcPos, bR, held, inPos, inEnd, cbits, tk, prod, deliv, phase, err, eof,
-          pc, want, waiting, srcErr
+          pc, want, waiting, srcErr,
+          resets,   \* Reset calls so far
+          stale     \* undelivered output bytes that belong to a stream abandoned by Reset
 
 vars == <<S, released, after, srcPos, bR, held, inPos, inEnd, cbits, tk, prod, deliv,
-          phase, err, eof, pc, want, waiting, srcErr>>
+          phase, err, eof, pc, want, waiting, srcErr, resets, stale>>
 
 -----------------------------------------------------------------------------
 (* stream geometry *)
@@ -52,6 +56,7 @@ Init ==
   /\ srcPos = 0 /\ bR = 0 /\ held = FALSE /\ inPos = 0 /\ inEnd = 0 /\ cbits = 0 /\ tk = 1
   /\ prod = 0 /\ deliv = 0 /\ phase = "run" /\ err = "nil" /\ eof = FALSE
   /\ pc = "idle" /\ want = 0 /\ waiting = FALSE /\ srcErr = "nil"
+  /\ resets = 0 /\ stale = 0
 
 -----------------------------------------------------------------------------
 (* caller: Read(k) *)
@@ -59,16 +64,17 @@ ReadCall(k) ==
   /\ pc = "idle"
   /\ IF prod > deliv
        THEN /\ deliv' = IF prod - deliv < k THEN prod ELSE deliv + k
+            /\ stale' = IF stale > deliv' - deliv THEN stale - (deliv' - deliv) ELSE 0
             /\ UNCHANGED <<pc, want>>
      ELSE IF err # "nil"
-       THEN UNCHANGED <<deliv, pc, want>>                    \* sticky error, n = 0
+       THEN UNCHANGED <<deliv, pc, want, stale>>             \* sticky error, n = 0
        ELSE /\ (phase = "streamend" /\ ~held => DevPeekAtStreamEnd)    \* otherwise Finish ends the stream without the source
             /\ pc' = IF phase = "finish" THEN "idle" ELSE IF held THEN "decode" ELSE "peek"
             /\ want' = IF DevPeekWholeBuffer THEN BufSize
                        ELSE bitsLen \div 8 + 1               \* one byte beyond what is loaded
-            /\ UNCHANGED deliv
+            /\ UNCHANGED <<deliv, stale>>
   /\ UNCHANGED <<S, released, after, srcPos, bR, held, inPos, inEnd, cbits, tk, prod,
-                 phase, err, eof, waiting, srcErr>>
+                 phase, err, eof, waiting, srcErr, resets>>
 
 (* bufio.Peek(want): fill from the source until want bytes are buffered *)
 Avail == srcPos - bR
@@ -81,14 +87,14 @@ PeekFill ==
      ELSE CASE after = "block" /\ srcPos < SrcLen(S) -> waiting' = TRUE /\ UNCHANGED <<srcPos, srcErr, eof>>
             [] after = "error" /\ srcPos < SrcLen(S) -> srcErr' = "injected" /\ UNCHANGED <<srcPos, waiting, eof>>
             [] OTHER -> eof' = TRUE /\ UNCHANGED <<srcPos, waiting, srcErr>>     \* true end of data
-  /\ UNCHANGED <<S, released, after, bR, held, inPos, inEnd, cbits, tk, prod, deliv, phase, err, pc, want>>
+  /\ UNCHANGED <<S, released, after, bR, held, inPos, inEnd, cbits, tk, prod, deliv, phase, err, pc, want, resets, stale>>
 
 PeekDone ==
   /\ pc = "peek" /\ ~waiting /\ (Avail >= want \/ srcErr # "nil" \/ eof)
   /\ IF srcErr # "nil" /\ DevErrorBeforeData
        THEN /\ err' = srcErr /\ pc' = "idle" /\ UNCHANGED <<held, inEnd>>   \* error wins over buffered data
        ELSE /\ held' = TRUE /\ inEnd' = srcPos /\ pc' = "decode" /\ UNCHANGED err
-  /\ UNCHANGED <<S, released, after, srcPos, bR, inPos, cbits, tk, prod, deliv, phase, eof, want, waiting, srcErr>>
+  /\ UNCHANGED <<S, released, after, srcPos, bR, inPos, cbits, tk, prod, deliv, phase, eof, want, waiting, srcErr, resets, stale>>
 
 (* decomperss(): load bytes, decode every token that is completely available *)
 RECURSIVE Run(_, _, _, _)
@@ -120,16 +126,30 @@ Decode ==
                      THEN bR' = r.ip - bl \div 8 /\ held' = FALSE          \* Discard
                      ELSE UNCHANGED <<bR, held>>
         /\ pc' = "idle"
-  /\ UNCHANGED <<S, released, after, srcPos, inEnd, deliv, eof, want, waiting, srcErr>>
+  /\ UNCHANGED <<S, released, after, srcPos, inEnd, deliv, eof, want, waiting, srcErr, resets, stale>>
 
 \* the caller re-enters step() after the output has been drained at stream end
 Finish ==
   /\ pc = "idle" /\ phase = "streamend" /\ prod = deliv /\ err = "nil"
   /\ phase' = "finish" /\ err' = "eof"
   /\ bR' = inPos - bitsLen \div 8 /\ held' = FALSE
-  /\ UNCHANGED <<S, released, after, srcPos, inPos, inEnd, cbits, tk, prod, deliv, eof, pc, want, waiting, srcErr>>
+  /\ UNCHANGED <<S, released, after, srcPos, inPos, inEnd, cbits, tk, prod, deliv, eof, pc, want, waiting, srcErr, resets, stale>>
 
-Next == (\E k \in ReadSizes : ReadCall(k)) \/ PeekFill \/ PeekDone \/ Decode \/ Finish
+\* Reset(src): the Reader is pointed at a new source; everything else starts afresh
+ResetMech ==
+  /\ pc = "idle" /\ resets < MaxResets
+  /\ resets' = resets + 1
+  /\ S' \in Streams
+  /\ released' \in SyncEnds(S') \cup {SrcLen(S')}
+  /\ after' \in Afters
+  /\ srcPos' = 0 /\ bR' = 0 /\ held' = FALSE /\ inPos' = 0 /\ inEnd' = 0 /\ cbits' = 0 /\ tk' = 1
+  /\ IF DevResetKeepsWindow
+       THEN UNCHANGED <<prod, deliv>> /\ stale' = prod - deliv     \* undelivered output of the old stream stays deliverable
+       ELSE prod' = 0 /\ deliv' = 0 /\ stale' = 0
+  /\ phase' = "run" /\ err' = "nil" /\ eof' = FALSE /\ want' = 0 /\ waiting' = FALSE /\ srcErr' = "nil"
+  /\ UNCHANGED pc
+
+Next == (\E k \in ReadSizes : ReadCall(k)) \/ PeekFill \/ PeekDone \/ Decode \/ Finish \/ ResetMech
 Spec == Init /\ [][Next]_vars
 
 -----------------------------------------------------------------------------
@@ -142,5 +162,6 @@ C11_NoWait     == waiting /\ released \in SyncEnds(S) => deliv = DecAt(S, releas
 C11_DataFirst  == err = "injected" /\ released \in SyncEnds(S) => deliv = DecAt(S, released)
 C15_SameError  == (after = "error" /\ err \notin {"nil"}) => (err = "injected" \/ (err = "eof" /\ released >= EndByte))
 C03_PrefixOnly == deliv <= prod /\ prod <= OutUpTo(S, Len(S))
+C13_NoLeak     == stale = 0                      \* nothing of an abandoned stream is ever deliverable
 TypeOK         == bitsLen \in 0..64 /\ bR <= inPos /\ inPos <= srcPos /\ srcPos <= SrcLen(S)
 =============================================================================
